@@ -63,6 +63,18 @@ CHECKS = {
          "Generated RegisteredClaims round-trip field-wise; the wire form is checked with a generic JSON parser and an own strict RFC 3339 reader; generated JSON texts (extras, order, duplicates, nulls, wrong types, offsets, fractions) are decoded differentially against serde_json::Value with instants computed by the generator; Json<T> is compared with serde_json directly.",
          "Trusts serde_json::Value as the generic parser; leap seconds are not generated.",
          "property-based round-trip + differential testing (proptest) against a generic JSON parser", "DESIGN.md §5 C14"),
+ "C04": ("pv-harness", "exploration",
+         "Structured generated-input search offered to every parser of every back end with follow-up use of whatever parses, in child processes (panic = violation keyed by source location; dead process = violation); enumerates every decoded length 0..700 under every header and the key-shape catalogue; thorough adds coverage-guided libFuzzer + AddressSanitizer campaigns over the same entry function.",
+         "PBKW inputs beyond the stated KDF budget are skipped (counted). aws-lc and libsodium are uninstrumented C in the quick tier; the fuzz build adds ASan to the Rust side and the FFI boundary.",
+         "property-based testing (proptest) + enumeration in isolated child processes; coverage-guided fuzzing (libFuzzer+ASan) in the thorough tier", "DESIGN.md §5 C04"),
+ "C16": ("pv-harness", "fault_enumeration",
+         "Histories of identical operations with set-based uniqueness of every fresh field and (getrandom back ends) a draw log proving the field is the prescribed function of freshly drawn bytes; fault enumeration over every (operation kind x RNG draw index x partial fill): must return Err, produce nothing, and leave the next operation working.",
+         "aws-lc, libsodium and rsa::OsRng draw outside getrandom 0.3 and cannot be failed in-process: only the history part applies to them.",
+         "stateful history checking + exhaustive RNG fault injection through a custom getrandom backend", "DESIGN.md §5 C16, §3.4"),
+ "C17": ("pv-harness", "exploration",
+         "Generated thread plans (1..16 real threads, mixed succeeding/failing operations, clone/drop overlap) against a sequential model, in child processes so crashes are observed; probes after every plan show failed operations did not alter the shared keys.",
+         "Interleavings are sampled by the OS scheduler (stress, not enumeration); C libraries are not race-instrumented.",
+         "model-based stress testing of generated concurrent plans (proptest) with a sequential oracle", "DESIGN.md §5 C17"),
 }
 
 NOT_APPLICABLE = []  # filled while properties are still being built
